@@ -74,6 +74,20 @@ check("C06",
       "TLA+ heap-refines-values model (C06_MC, C06_Values) checked with TLC; transition-cover replay on real meshes; TLC trace validation (C06_Trace)",
       "DESIGN.md 6.6")
 
+check("C12",
+      "TLC checks (a) the box laws of the statement on the specification's own definitions for every pair of integer boxes "
+      "and every point with coordinates 0..2 in dimension 1-2 (59 292 combinations), and the rotation laws (isometry, axis "
+      "fixed, inverse, additivity) on the exact rotation table; (b) an effect-system model (arrays and boxes as references "
+      "to buffers, numpy's error configuration as a global, a write set per call) with the two as-built deviations "
+      "switchable. Every transition of the effects model and random sequences over 70 API calls (incl. degenerate arguments "
+      "that raise) run on real objects with content digests of ALL tracked arrays, boxes and meshes and np.geterr() recorded "
+      "before/after every call; ~30 primitives are evaluated on exhaustive/sampled lattice arguments and TLC compares the "
+      "results with exact rational values (lengths squared, angles via cos^2 and sign).",
+      "Lattice inputs only (exactness); general-angle rotations and aspect_ratio round-off not decided; angles exactly at "
+      "+-pi not judged; circumcentre judged for equidistance here (its full definition under C07).",
+      "TLA+ exact algebra (C12_Primitives, Rotations) + effect-system model (C12_Effects_MC) checked with TLC; replay and TLC trace validation (C12_Trace) of results and before/after digests",
+      "DESIGN.md 6.12")
+
 ALL = ["C%02d" % i for i in range(1, 21)]
 
 
